@@ -24,9 +24,20 @@ PUNCT = {
 def str_consts(b):
     """(bb, local, value) for every string constant assigned in body b."""
     for i in sorted(b.reach):
-        for st in b.blocks[i]["stmts"]:
-            if st["k"] == "assign" and st["rv"]["k"] == "use" and st["rv"]["op"]["k"] == "const" and "str" in st["rv"]["op"]:
-                yield i, st["place"]["l"], st["rv"]["op"]["str"]
+        blk = b.blocks[i]
+        for st in blk["stmts"]:
+            if st["k"] != "assign":
+                continue
+            rv = st["rv"]
+            ops = [rv.get(k_) for k_ in ("op", "a", "b")] + list(rv.get("ops", ()))
+            for o in ops:
+                if isinstance(o, dict) and o.get("k") == "const" and "str" in o:
+                    yield i, st["place"]["l"], o["str"]
+        t = blk["term"]
+        if t["k"] == "call":
+            for o in t["args"]:
+                if o.get("k") == "const" and "str" in o:
+                    yield i, t["dest"]["l"], o["str"]
 
 
 def ref_target(b, op, depth=0):
@@ -79,16 +90,67 @@ def events(cx, crate, b):
     return out
 
 
+MATCHERS = ("parse_character_literal", "parse_string_literal", "parse_character_literal_insensitive", "parse_string_literal_insensitive",
+            "parse_character_range", "parse_end_of_input", "parse_char")
+
+
+def matcher_selections(cx, cg, path):
+    """[(leaf, matcher name, [emitted literal values], event)] read off the semantic summary of generator function `path`: every
+    event of a returning leaf that carries the name of a runtime terminal matcher as a string constant, with the values quoted
+    (`ToTokens::to_tokens(V, ..)`) inside the same event."""
+    from .. import sem
+    S = cx.__dict__.setdefault("_gen_sem", None)
+    if S is None:
+        S = cx.__dict__["_gen_sem"] = sem.Sem(cx, cg)
+    sm = S.summarize(path)
+    out = []
+    for leaf in sm.leaves:
+        if leaf.kind != "return":
+            continue
+        for ev in leaf.trace:
+            t = ev[0]
+            if t[0] != "call":
+                continue
+            names = [a[2] for a in t[2] if isinstance(a, tuple) and a and a[0] == "const" and a[1] == "str" and a[2] in MATCHERS]
+            if not names:
+                continue
+            vals = []
+            for s_ in walk(t):
+                if s_ is not t and is_call(s_, "to_tokens") and s_[2]:
+                    vals.append(s_[2][0])
+            out.append((leaf, names[0], vals, ev))
+    return sm, out
+
+
+def derives_from(v, X, allowed):
+    """v is X seen through calls named in `allowed` only (payload projections are transparent)."""
+    while True:
+        if v == X:
+            return True
+        if v[0] in ("field", "downcast"):
+            v = v[1]
+            continue
+        if v[0] == "call" and last(v[1]) in allowed and v[2]:
+            v = v[2][0]
+            continue
+        if v[0] == "post" and v[1][0] == "call" and last(v[1][1]) in ("next",):
+            # the iterator after a next(): still the same character source
+            v = v[1][2][0]
+            continue
+        return False
+
+
 def check_c04_ascii(cx, chk, insens_names=("parse_character_literal_insensitive", "parse_string_literal_insensitive")):
-    """Every place the generator selects a case-insensitive matcher is dominated by the
-    ASCII test of the literal, and only the lower-cased literal is emitted there."""
+    """Every path of the generator that selects a case-insensitive matcher has tested the literal with is_ascii() and
+    emits only (a character of) its to_ascii_lowercase - read off the semantic summary of the selecting function."""
+    from .. import sem
     cg = cx.codegen
     if cg is None:
         chk.anchor_missing("C04.ascii", "peginator_codegen crate")
         return
     sites = 0
     for p, f in sorted(cg.fns.items()):
-        if "mir" not in f or "::grammar::generated::" in p:
+        if "mir" not in f or "::grammar::generated::" in p or "{closure" in p:
             continue
         b = cx.body(cg, p)
         hits = [(i, l, v) for (i, l, v) in str_consts(b) if v in insens_names]
@@ -99,43 +161,42 @@ def check_c04_ascii(cx, chk, insens_names=("parse_character_literal_insensitive"
                     chk.violation("C04.ascii", "%s emits %s directly" % (short(p), ev["text"]),
                                   "case-insensitive matcher emitted without the ASCII guard", cx.site(b, ev["bb"]))
             continue
-        evs = events(cx, cg, b)
-        for (i, l, v) in hits:
-            sites += 1
-            tag = "%s selects %s" % (short(p), v)
-            X = None
-            for (e, tv, d) in b.atoms(i):
-                if tv is True and is_call(e, "is_ascii") and len(e[2]) == 1:
-                    X = e[2][0]
-            if X is None:
-                chk.violation("C04.ascii", tag + " unguarded",
-                              "the generator selects %s on a path that is not dominated by a successful is_ascii() "
-                              "test of the literal: non-ASCII case-insensitive literals reach the byte-wise matcher "
-                              "(its unsafe advance can split a UTF-8 sequence)" % v, cx.site(b, i))
+        try:
+            sm, sels = matcher_selections(cx, cg, p)
+        except sem.SemLimit as ex:
+            chk.violation("C04.ascii", "%s unsummarised" % short(p), "the function selecting a case-insensitive matcher could not be summarised: %s" % ex, cx.site(b))
+            continue
+        found = set()
+        for (leaf, name, vals, ev) in sels:
+            if name not in insens_names:
                 continue
-            # X must be the decoded literal (unwrap through deref-call normalisation)
-            def has_lower_of_X(e):
-                for s in walk(e):
-                    if is_call(s, "to_ascii_lowercase") and len(s[2]) == 1 and strip_deref_calls(s[2][0]) == strip_deref_calls(X):
-                        return True
-                return False
-            bad = []
-            n_holes = 0
-            for ev in evs:
-                if ev["kind"] == "hole" and (ev["bb"] == i or b.dominates(i, ev["bb"])) and not _after_join(b, i, ev["bb"]):
-                    n_holes += 1
-                    if not has_lower_of_X(ev["expr"]):
-                        bad.append(ev)
+            found.add(name)
+            sites += 1
+            tag = "%s selects %s" % (short(p), name)
+            Xs = [a[2][0] for (a, v) in leaf.assumed_before(ev) if v is True and is_call(a, "is_ascii") and len(a[2]) == 1]
+            if not Xs:
+                chk.violation("C04.ascii", tag + " unguarded",
+                              "the generator selects %s on a path on which the literal has not passed an is_ascii() test: non-ASCII "
+                              "case-insensitive literals reach the byte-wise matcher (its unsafe advance can split a UTF-8 sequence)" % name,
+                              cx.site(b, ev[2][1]))
+                continue
+            X = strip_deref_calls(Xs[-1])
+            low = [s_ for v in vals for s_ in walk(v) if is_call(s_, "to_ascii_lowercase") and s_[2] and strip_deref_calls(s_[2][0]) == X]
+            bad = [v for v in vals if not any(is_call(s_, "to_ascii_lowercase") and s_[2] and strip_deref_calls(s_[2][0]) == X for s_ in walk(v))]
             if bad:
-                for ev in bad:
-                    chk.violation("C04.ascii", tag + " emits-unlowered",
-                                  "literal emitted for %s is not the to_ascii_lowercase of the ASCII-tested literal: %s"
-                                  % (v, mir.show(ev["expr"])), cx.site(b, ev["bb"]))
-            elif n_holes == 0:
-                chk.violation("C04.ascii", tag + " no-literal", "no literal emission found in the arm selecting %s" % v, cx.site(b, i))
+                chk.violation("C04.ascii", tag + " emits-unlowered",
+                              "literal emitted for %s is not the to_ascii_lowercase of the ASCII-tested literal: %s" % (name, mir.show(bad[0])[:200]),
+                              cx.site(b, ev[2][1]))
+            elif not vals:
+                chk.violation("C04.ascii", tag + " no-literal", "no literal emission found on the path selecting %s" % name, cx.site(b, ev[2][1]))
             else:
-                chk.ok("C04.ascii", tag, {"fn": short(p), "matcher": v, "guard": "is_ascii(%s)" % mir.show(X),
-                                          "emitted": "to_ascii_lowercase of the same literal"})
+                chk.ok("C04.ascii", tag + " @%s" % "&".join("%s=%s" % (mir.show(a)[:30], v) for a, v in leaf.assume[-2:]),
+                       {"fn": short(p), "matcher": name, "guard": "is_ascii(%s)" % mir.show(X)[:80], "emitted": "to_ascii_lowercase of the same literal"})
+        for (i, l, v) in hits:
+            if v not in found:
+                chk.violation("C04.ascii", "%s selects %s untracked" % (short(p), v),
+                              "the name %s is used in %s but no returning path hands it on together with a literal: the ASCII guard cannot be related to it" % (v, short(p)),
+                              cx.site(b, i))
     chk.floor("C04.ascii", "generator sites selecting a matcher that relies on Ascii(literal)", sites, 1)
 
 
